@@ -83,6 +83,15 @@ Slice(x, a, b)   == <<"Slice", x, a, b>>     \* bytes a .. b-1
 CatFor(v, n, body) == <<"CatFor", v, n, body>>   \* body[v:=0] || ... || body[v:=n-1]
 
 N(t) == t[2]                                  \* value of a normal integer term <<"int", n>>
+
+(* LE32 / LE64 at byte level (least significant byte first).  The terms LE32(n), LE64(n) are free     *)
+(* constructors; that the byte strings they stand for determine n - in particular that the block key  *)
+(* LE32(i) of segment i differs from that of every other segment, also beyond i = 255 and i = 65535 - *)
+(* is checked on these definitions (LE32Exact, and the invariant SegmentKeysDistinct).                *)
+LE32Bytes(n) == <<n % 256, (n \div 256) % 256, (n \div 65536) % 256, (n \div 16777216) % 256>>
+FromLE32(b)  == b[1] + 256 * b[2] + 65536 * b[3] + 16777216 * b[4]
+LE32Exact(S) == /\ \A i \in S : FromLE32(LE32Bytes(i)) = i /\ \A k \in 1..4 : LE32Bytes(i)[k] \in 0..255
+                /\ \A i, j \in S : i # j => LE32Bytes(i) # LE32Bytes(j)
 RoundUp(n, b) == ((n + b - 1) \div b) * b
 MinN(a, b) == IF a <= b THEN a ELSE b
 MaxN(a, b) == IF a >= b THEN a ELSE b
@@ -376,6 +385,14 @@ Layout == \A i \in DOMAIN files : ~files[i].tampered =>
       /\ Size(files[i].file.stream) = LenPrefix + RoundUp(n, 16)
       /\ \A j \in 2..Len(ps) : IF j < Len(ps) THEN Size(ps[j]) = SegSize
                                ELSE Size(ps[j]) = RoundUp(n - SegSize * (NSegOf(n) - 1), 16)
+
+(* every segment of a stored stream is encrypted under its own IV: the block keys LE32(i), taken as *)
+(* the four bytes that are hashed, are pairwise different and are the segment numbers 0, 1, 2, ...   *)
+SegKeyBytes(seg) == LE32Bytes(N(seg[4][2][3][3][2]))      \* Enc(p, key, Fit(H(p, Cat(salt, LE32(int i))), 16), x)
+SegmentKeysDistinct == \A i \in DOMAIN files : ~files[i].tampered =>
+   LET ps == Parts(files[i].file.stream) IN
+   /\ \A j \in 2..Len(ps) : ps[j][1] = "Enc" /\ ps[j][4][2][3][3][1] = "LE32" /\ FromLE32(SegKeyBytes(ps[j])) = j - 2
+   /\ Cardinality({SegKeyBytes(ps[j]) : j \in 2..Len(ps)}) = Len(ps) - 1
 
 (* no random value occurs twice, neither inside a save nor in two saves of a history *)
 Fresh == /\ Cardinality(used) = 5 * Len(files)
